@@ -71,7 +71,10 @@ FieldReq(f, o) == LET v == f.v IN
    ELSE IF v.g = "other" THEN "may"
    ELSE "must"                                               \* in particular: a neighbour's omitempty changes nothing here
 
-MemberReq(v, o) == IF (o.onil \/ o.oempty) /\ (IsNilPtr(v) \/ IsNilCont(v)) THEN "may"     \* is a Go map "an object"? either
+\* map members: is a Go map "an object"? either.  Under OmitNil the oj / sen writers also leave out EMPTY (non-nil) slice and
+\* map members and ojg's own suite asserts that (TestWriteMapSlice), while struct members of that kind are written: allowed.
+MemberReq(v, o) == IF (o.onil \/ o.oempty) /\ (IsNilPtr(v) \/ IsNilCont(v)) THEN "may"
+                   ELSE IF o.onil /\ v.g \in {"slice", "map"} /\ v.a = <<>> THEN "may"
                    ELSE IF o.oempty /\ Emptyish(v) THEN "may" ELSE "must"
 
 Descr(f, ctx, rel) == [fk |-> KindOf(f.v), tg |-> TagForm(f), ctx |-> ctx, rel |-> rel, val |-> ValClass(f.v), key |-> f.n]
@@ -211,6 +214,16 @@ NilEq(x, y) == \/ x = y
                \/ (x.t = "arr" /\ y.t = "arr" /\ Len(x.a) = Len(y.a) /\ \A i \in 1..Len(x.a) : NilEq(x.a[i], y.a[i]))
                \/ (x.t = "obj" /\ y.t = "obj" /\ Len(x.m) = Len(y.m)
                    /\ \A i \in 1..Len(x.m) : x.m[i].k = y.m[i].k /\ NilEq(x.m[i].v, y.m[i].v))
+
+\* Agreement tolerates null versus an empty array / object (a nil slice or map "may appear as an empty one": oj writes {} for
+\* a nil map that is a map member, alt.Decompose null); nil pointers and non-nil containers are pinned by the Reference layer
+RECURSIVE NilEqC(_, _)
+EmptyC(x) == (x.t = "arr" /\ x.a = <<>>) \/ (x.t = "obj" /\ x.m = <<>>)
+NilEqC(x, y) == \/ x = y
+                \/ (x.t = "null" /\ EmptyC(y)) \/ (y.t = "null" /\ EmptyC(x))
+                \/ (x.t = "arr" /\ y.t = "arr" /\ Len(x.a) = Len(y.a) /\ \A i \in 1..Len(x.a) : NilEqC(x.a[i], y.a[i]))
+                \/ (x.t = "obj" /\ y.t = "obj" /\ Len(x.m) = Len(y.m)
+                    /\ \A i \in 1..Len(x.m) : x.m[i].k = y.m[i].k /\ NilEqC(x.m[i].v, y.m[i].v))
 
 \* first top-level difference between two trees: [w, key]
 KeysOf(x) == {x.m[i].k : i \in 1..Len(x.m)}
